@@ -2083,7 +2083,30 @@ LOOP:
 
 func (x *TypeInfos) get(rtid uintptr, rt reflect.Type) (pti *typeInfo) {
 	if pti = x.find(rtid); pti == nil {
-		pti = x.load(rt)
+		pti = x.load(rt, nil)
+	}
+	return
+}
+
+// typeInfoLoading is the chain of container types whose typeInfo is being loaded
+// (each needs the typeInfo of its element/key type before it is complete).
+type typeInfoLoading struct {
+	rtid   uintptr
+	parent *typeInfoLoading
+}
+
+// getElem is get, for the element/key type of a container type that is being loaded.
+// A container type that contains itself (type T []T, type M map[string]*M, ...) has no
+// finite typeInfo: report it, instead of recursing until the stack is exhausted.
+func (x *TypeInfos) getElem(rt reflect.Type, loading *typeInfoLoading) (pti *typeInfo) {
+	rtid := rt2id(rt)
+	if pti = x.find(rtid); pti == nil {
+		for p := loading; p != nil; p = p.parent {
+			if p.rtid == rtid {
+				halt.errorf("unsupported type: %v is a container of itself", rt)
+			}
+		}
+		pti = x.load(rt, loading)
 	}
 	return
 }
@@ -2096,7 +2119,7 @@ func (x *TypeInfos) find(rtid uintptr) (pti *typeInfo) {
 	return
 }
 
-func (x *TypeInfos) load(rt reflect.Type) (pti *typeInfo) {
+func (x *TypeInfos) load(rt reflect.Type, parent *typeInfoLoading) (pti *typeInfo) {
 	rk := rt.Kind()
 
 	if rk == reflect.Ptr { // || (rk == reflect.Interface && rtid != intfTypId) {
@@ -2211,13 +2234,13 @@ func (x *TypeInfos) load(rt reflect.Type) (pti *typeInfo) {
 		ti.elem = rt.Elem()
 		for tt = ti.elem; tt.Kind() == reflect.Ptr; tt = tt.Elem() {
 		}
-		ti.tielem = x.get(rt2id(tt), tt)
+		ti.tielem = x.getElem(tt, &typeInfoLoading{rtid, parent})
 		ti.elemkind = uint8(ti.elem.Kind())
 		ti.elemsize = uint32(ti.elem.Size())
 		ti.key = rt.Key()
 		for tt = ti.key; tt.Kind() == reflect.Ptr; tt = tt.Elem() {
 		}
-		ti.tikey = x.get(rt2id(tt), tt)
+		ti.tikey = x.getElem(tt, &typeInfoLoading{rtid, parent})
 		ti.keykind = uint8(ti.key.Kind())
 		ti.keysize = uint32(ti.key.Size())
 		if ti.flagHasPkgPath {
@@ -2232,7 +2255,7 @@ func (x *TypeInfos) load(rt reflect.Type) (pti *typeInfo) {
 		ti.elem = rt.Elem()
 		for tt = ti.elem; tt.Kind() == reflect.Ptr; tt = tt.Elem() {
 		}
-		ti.tielem = x.get(rt2id(tt), tt)
+		ti.tielem = x.getElem(tt, &typeInfoLoading{rtid, parent})
 		ti.elemkind = uint8(ti.elem.Kind())
 		ti.elemsize = uint32(ti.elem.Size())
 		if ti.flagHasPkgPath {
@@ -2243,7 +2266,7 @@ func (x *TypeInfos) load(rt reflect.Type) (pti *typeInfo) {
 		ti.elem = rt.Elem()
 		for tt = ti.elem; tt.Kind() == reflect.Ptr; tt = tt.Elem() {
 		}
-		ti.tielem = x.get(rt2id(tt), tt)
+		ti.tielem = x.getElem(tt, &typeInfoLoading{rtid, parent})
 		ti.elemkind = uint8(ti.elem.Kind())
 		ti.elemsize = uint32(ti.elem.Size())
 		ti.chandir = uint8(rt.ChanDir())
@@ -2260,7 +2283,7 @@ func (x *TypeInfos) load(rt reflect.Type) (pti *typeInfo) {
 		ti.elemsize = uint32(ti.elem.Size())
 		for tt = ti.elem; tt.Kind() == reflect.Ptr; tt = tt.Elem() {
 		}
-		ti.tielem = x.get(rt2id(tt), tt)
+		ti.tielem = x.getElem(tt, &typeInfoLoading{rtid, parent})
 		ti.key = reflect.SliceOf(ti.elem)
 		ti.keykind = uint8(reflect.Slice)
 		ti.keysize = uint32(ti.key.Size())
